@@ -38,6 +38,40 @@ type litCase struct {
 	Mag    string          `json:"mag"`
 	Kind   string          `json:"kind"` // num | big
 	Goal   string          `json:"goal"` // any | sloppy
+	// str: the contexts (names of spec/JsLiteral.tla Contexts) this body is placed in, and whether the body,
+	// as a directive, is the `use strict` directive (written without escapes)
+	Ctxs      []string `json:"ctxs"`
+	UseStrict bool     `json:"usestrict"`
+	// family "ctx": the context table of the specification
+	Contexts []litCtx `json:"contexts"`
+}
+
+// litCtx: one element of JsLiteral!Contexts
+type litCtx struct {
+	Name   string   `json:"name"`
+	Quotes []string `json:"quotes"`
+	Pre    string   `json:"pre"`
+	BPre   string   `json:"bpre"`
+	BPost  string   `json:"bpost"`
+	Post   string   `json:"post"`
+	VPre   []int    `json:"vpre"`
+	VPost  []int    `json:"vpost"`
+	Mode   string   `json:"mode"`
+	Strict bool     `json:"strict"`
+	Quick  bool     `json:"quick"`
+}
+
+// the context table exported by TLC (set once by genLiterals / replay)
+var litContexts = map[string]litCtx{}
+
+func quoteChar(q string) string {
+	switch q {
+	case "sq":
+		return "'"
+	case "dq":
+		return "\""
+	}
+	return "`"
 }
 
 func (c *litCase) body() string {
@@ -80,19 +114,34 @@ func (c *litCase) programs() []litProg {
 	switch c.Family {
 	case "str":
 		b := c.body()
-		want := hexUnits(c.Units)
-		switch c.Quote {
-		case "sq":
-			return []litProg{{"expr", "x = '" + b + "';", "str", want}, {"key", "x = {'" + b + "': 1};", "key", want},
-				{"arg", "x = String('" + b + "', 0);", "str", want}}
-		case "dq":
-			return []litProg{{"expr", "x = \"" + b + "\";", "str", want}, {"key", "x = {\"" + b + "\": 1};", "key", want},
-				{"concat", "x = \"" + b + "\" + \"" + b + "\";", "str", want + "." + want}}
-		case "tpl":
-			return []litProg{{"expr", "x = `" + b + "`;", "str", want}, {"hole", "x = `" + b + "${0}`;", "str", want + ".0030"}}
-		case "tag":
-			return []litProg{{"expr", "x = tag`" + b + "`;", "tag", ""}}
+		q := quoteChar(c.Quote)
+		var out []litProg
+		names := append([]string(nil), c.Ctxs...)
+		sort.Strings(names)
+		for _, n := range names {
+			cx, ok := litContexts[n]
+			if !ok {
+				continue
+			}
+			want := ""
+			if cx.Mode != "tag" {
+				var u []int
+				u = append(u, cx.VPre...)
+				u = append(u, c.Units...)
+				u = append(u, cx.VPost...)
+				want = hexUnits(u)
+				if cx.Mode == "dir" {
+					// the directive prologue: the spec says the code after it is strict iff the directive is `use strict` without escapes
+					if c.UseStrict {
+						want += "|strict"
+					} else {
+						want += "|sloppy"
+					}
+				}
+			}
+			out = append(out, litProg{n, cx.Pre + q + cx.BPre + b + cx.BPost + q + cx.Post, cx.Mode, want})
 		}
+		return out
 	case "re":
 		return []litProg{{"expr", "x = /" + c.body() + "/" + c.Flags + ";", "re", ""},
 			{"glue", "x = [/" + c.body() + "/" + c.Flags + " in {}, /" + c.body() + "/" + c.Flags + "][1];", "re", ""}}
@@ -184,13 +233,25 @@ func genLiterals(r *core.Run) []litCase {
 	core.Parallel(len(jobs), len(jobs), func(i int) {
 		j := jobs[i]
 		var local []litCase
+		cfgName := fmt.Sprintf("JsLiteralGen.%s%d.cfg", j.family, j.size)
+		cfgText := fmt.Sprintf("SPECIFICATION Spec\nCONSTANTS\n  Family = \"%s\"\n  Size = %d\n  NParts = 8\n  Seed = %d\nINVARIANTS\n  AllSourcesOK Inhabited\nCHECK_DEADLOCK FALSE\n",
+			j.family, j.size, r.Seed%1000)
 		tlcrun.MustHold(r, tlcrun.Options{
-			Module: "JsLiteralGen", Config: fmt.Sprintf("JsLiteralGen.%s%d.cfg", j.family, j.size), Workers: 2,
+			Module: "JsLiteralGen", Config: cfgName, Workers: 2,
 			TimeoutSec: r.Pick(1800, 3600), XssMB: 64, HeapGB: 4,
+			Files: map[string]string{cfgName: cfgText},
 			OnCase: func(raw []byte) {
 				var c litCase
 				if err := json.Unmarshal(raw, &c); err != nil {
 					r.Infra("undecodable literal CASE: %v", err)
+					return
+				}
+				if c.Family == "ctx" {
+					mu.Lock()
+					for _, cx := range c.Contexts {
+						litContexts[cx.Name] = cx
+					}
+					mu.Unlock()
 					return
 				}
 				local = append(local, c)
@@ -268,6 +329,13 @@ func runLiterals(r *core.Run, cases []litCase, cfgs []config) {
 	core.Parallel(len(cases), 8, func(i int) {
 		c := &cases[i]
 		le := litEval{c: c, progs: c.programs()}
+		if !r.Thorough() && c.Family == "num" && len(le.progs) > 3 {
+			// quick: the plain expression context plus two of the other contexts in seeded rotation
+			n := len(le.progs) - 1
+			a := 1 + (i+int(r.Seed%1000))%n
+			b := 1 + (i+int(r.Seed%1000)+n/2)%n
+			le.progs = []litProg{le.progs[0], le.progs[a], le.progs[b]}
+		}
 		for _, pg := range le.progs {
 			le.in = append(le.in, ev.add(evItem{Src: pg.src, Mode: pg.mode, Goal: "script"}))
 			var outs []litOut
@@ -277,6 +345,11 @@ func runLiterals(r *core.Run, cases []litCase, cfgs []config) {
 					goal = "sloppy"
 				}
 				if !formatOK(goal, cf.Format) {
+					continue
+				}
+				// the directive context observes the completion value of the script and the strictness of the code after
+				// the directive: both are only preserved when the output format is the input's (property exclusion)
+				if pg.mode == "dir" && cf.Format != "preserve" {
 					continue
 				}
 				code, errText := transform(pg.src, cf, api.LoaderJS)
@@ -337,6 +410,11 @@ func runLiterals(r *core.Run, cases []litCase, cfgs []config) {
 				cf := cfgs[o.cfg]
 				key := map[string]interface{}{"kind": "literal", "family": c.Family, "context": pg.ctx, "input": pg.src, "config": cf.Name(), "form": c.Form}
 				detail := map[string]interface{}{"case": c, "input": pg.src, "config": cf, "expected_value": in.Val}
+				if c.Family == "str" {
+					detail["contexts"] = []litCtx{litContexts[pg.ctx]}
+					// the directive-position context with the value `use strict` spelled with an escape (not the directive)
+					key["escaped_use_strict_directive"] = pg.ctx == "dir" && !c.UseStrict && hexUnits(c.Units) == "0075.0073.0065.0020.0073.0074.0072.0069.0063.0074"
+				}
 				if o.err != "" {
 					key["check"] = "accepts-valid-input"
 					r.Violation(key, fmt.Sprintf("esbuild rejects a valid program: %q: %s", pg.src, o.err), detail)
